@@ -10,3 +10,4 @@ for p in "$@"; do
 done
 git -C /repo checkout -- .
 git -C /repo status --short | head -3
+/venv/bin/python /verif/translator/extract.py >/dev/null 2>&1
